@@ -5378,6 +5378,12 @@ int32_t matrixSslEncodeClientHello(ssl_t *ssl, sslBuf_t *out,
 
 #  ifdef USE_STATELESS_SESSION_TICKETS
     if (ssl->sid &&
+#   ifdef USE_DTLS
+        /* (not when a DTLS ClientHello is encoded AGAIN - cookie exchange,
+           retransmission: the extensions saved from the first encoding are
+           sent, and the state that encoding set stands) */
+        !(ACTV_VER(ssl, v_dtls_any) && ssl->helloExtLen > 0) &&
+#   endif
         ssl->sid->sessionTicketState != SESS_TICKET_STATE_USING_TICKET &&
 #   ifdef USE_EAP_FAST
         ssl->sid->sessionTicketState != SESS_TICKET_STATE_EAP_FAST &&
